@@ -233,6 +233,11 @@ def big_file_worker(kp, job):
                 except Exception as e:
                     got = 'raise:' + type(e).__name__
                 want = kp.get_kern_from_ekern(text)
+                # the kern text of this file, written by hand: the preamble as it is, the body without separators under **kern
+                body_kern = '**kern\t**text\t**kern\n*clefG2\t*\t*clefF4\n4cL\tla\t8.dd#\n=\t=\t=\n*-\t*-\t*-\n'
+                if want != pre + body_kern:
+                    viol.append(('cli-ekern2kern', f'an ekern text with {k} records before its header line: get_kern_from_ekern does not return the kern text '
+                                                   f'(header line {want[len(pre):len(pre) + 24]!r}...)', {'header_offset': target, 'preamble_lines': k, 'body': body}))
                 if got != want:
                     k_ = next((i for i in range(min(len(got), len(want))) if got[i] != want[i]), min(len(got), len(want)))
                     viol.append(('cli-ekern2kern', f'an ekern file whose header line starts at character {target}: the converted file differs from '
